@@ -234,8 +234,9 @@ func (x *Exec) runTop() {
 	x.flushProbes()
 }
 
-// flushProbes keeps an evenly spread sample of the clause-level vacuity probes (at most 48 per
-// clause and run): the probe only has to find one return path on which the antecedent holds.
+// flushProbes orders the clause-level vacuity probes: an evenly spread sample (at most 48 per
+// clause and run) is tried first; the remaining candidates are kept in reserve (Late) and are only
+// built and solved when no probe of the sample found a return path on which the antecedent holds.
 func (x *Exec) flushProbes() {
 	var labels []string
 	for l := range x.probeCands {
@@ -249,8 +250,15 @@ func (x *Exec) flushProbes() {
 			x.obls = append(x.obls, c...)
 			continue
 		}
+		picked := map[int]bool{}
 		for k := 0; k < max; k++ {
-			x.obls = append(x.obls, c[k*(len(c)-1)/(max-1)])
+			picked[k*(len(c)-1)/(max-1)] = true
+		}
+		for i, o := range c {
+			if !picked[i] {
+				o.Late = true
+			}
+			x.obls = append(x.obls, o)
 		}
 	}
 	x.probeCands = map[string][]*Obligation{}
